@@ -582,6 +582,21 @@ func cmdCheck(args []string) int {
 			fmt.Fprintf(os.Stderr, "  vacuity: reachability witness %q not reached\n", l)
 			inconclusive = true
 		}
+		if os.Getenv("VERIF_VALIDATE") != "0" && s.Replay && !*noReplay && *oneScript == "" && len(rep.Violations) == 0 {
+			ok, bad := validateTraces(sc, s, specs, rep)
+			tracesValidated += ok
+			for _, b := range bad {
+				if *tier == "thorough" {
+					fmt.Fprintln(os.Stderr, "  problem: trace validation: "+b)
+					inconclusive = true
+				} else {
+					// the quick tier reports a divergence without failing on it (native
+					// runs of threaded harnesses depend on the host's scheduler)
+					fmt.Fprintln(os.Stderr, "  note: trace validation: "+b)
+					traceMismatches++
+				}
+			}
+		}
 		for _, v := range rep.Violations {
 			kf := matchKnown(known, prop, s.Name, v.Label)
 			// replay
@@ -641,6 +656,126 @@ func cmdCheck(args []string) int {
 		fmt.Printf("OK property=%s tier=%s harnesses=%d wall=%.1fs\n", prop, *tier, len(sel), time.Since(start).Seconds())
 	}
 	return exit
+}
+
+// nativeBins caches the native replay test binary per harness package.
+var nativeBins = map[string]string{}
+
+// nativeBinary builds (once) a test binary of the native variant of the harness
+// package of s in which every harness function of that package can be selected with
+// VERIF_HARNESS.
+func nativeBinary(sc *scratch, s *harnessSpec, all []*harnessSpec) (string, string) {
+	if b, ok := nativeBins[s.PkgRel]; ok {
+		return b, ""
+	}
+	name, err := pkgNameOf(s.PkgRel)
+	if err != nil {
+		return "", err.Error()
+	}
+	dir, err := os.MkdirTemp(sc.dir, "nativebin-")
+	if err != nil {
+		return "", err.Error()
+	}
+	repl := map[string]string{}
+	for _, hf := range allHarnessFiles {
+		if hf.PkgRel != s.PkgRel || !forNative(hf.Path) {
+			continue
+		}
+		dst := filepath.Join(dir, "h_"+filepath.Base(hf.Path))
+		b, _ := os.ReadFile(hf.Path)
+		os.WriteFile(dst, b, 0o644)
+		repl[filepath.Join(repoDir, s.PkgRel, "zz_verif_"+filepath.Base(hf.Path))] = dst
+	}
+	api, err := apiSource("native", name)
+	if err != nil {
+		return "", err.Error()
+	}
+	apiPath := filepath.Join(dir, "api.go")
+	os.WriteFile(apiPath, api, 0o644)
+	repl[filepath.Join(repoDir, s.PkgRel, "zz_verif_api.go")] = apiPath
+	var reg strings.Builder
+	seen := map[string]bool{}
+	for _, o := range all {
+		if o.PkgRel == s.PkgRel && !seen[o.Func] {
+			seen[o.Func] = true
+			fmt.Fprintf(&reg, "\t%q: %s,\n", o.Func, o.Func)
+		}
+	}
+	test := fmt.Sprintf("package %s\n\nimport (\n\t\"os\"\n\t\"testing\"\n)\n\nvar verifHarnessFuncs = map[string]func(){\n%s}\n\nfunc TestVerifReplay(t *testing.T) {\n\tverifReplayMain(t, verifHarnessFuncs[os.Getenv(\"VERIF_HARNESS\")])\n}\n", name, reg.String())
+	testPath := filepath.Join(dir, "replay_test.go")
+	os.WriteFile(testPath, []byte(test), 0o644)
+	repl[filepath.Join(repoDir, s.PkgRel, "zz_verif_replay_test.go")] = testPath
+	if goroot, err := exec.Command("go", "env", "GOROOT").Output(); err == nil {
+		tp := filepath.Join(strings.TrimSpace(string(goroot)), "src", "time", "time.go")
+		if src, err := os.ReadFile(tp); err == nil && strings.Contains(string(src), "\nfunc Now() Time {") {
+			mod := strings.Replace(string(src), "\nfunc Now() Time {", "\n// VerifNowHook is installed by /verif replay harnesses.\nvar VerifNowHook func() Time\n\nfunc Now() Time {\n\tif VerifNowHook != nil {\n\t\treturn VerifNowHook()\n\t}\n\treturn verifRealNow()\n}\n\nfunc verifRealNow() Time {", 1)
+			tdst := filepath.Join(dir, "time.go")
+			os.WriteFile(tdst, []byte(mod), 0o644)
+			repl[tp] = tdst
+		}
+	}
+	ov := filepath.Join(dir, "overlay.json")
+	writeJSON(ov, map[string]interface{}{"Replace": repl})
+	bin := filepath.Join(dir, "replay.test")
+	cmd := exec.Command("go", "test", "-vet=off", "-c", "-o", bin, "-overlay", ov, ".")
+	cmd.Dir = filepath.Join(repoDir, s.PkgRel)
+	cmd.Env = append([]string{}, sc.env...)
+	out, err := cmd.CombinedOutput()
+	if err != nil {
+		return "", "native build failed: " + firstLines(string(out), 20)
+	}
+	nativeBins[s.PkgRel] = bin
+	return bin, ""
+}
+
+// validateTraces replays the reachability witnesses of a harness against the real
+// build: the native run must reach the same label without any assertion failing.
+// Witnesses that use scheduling freedom or symbolic-only fault injection are skipped.
+func validateTraces(sc *scratch, s *harnessSpec, all []*harnessSpec, rep *symgo.HarnessReport) (ok int, bad []string) {
+	var todo []symgo.Sample
+	for _, sm := range rep.Samples {
+		if engineChoiceScore(sm.Script) == 0 {
+			todo = append(todo, sm)
+		}
+	}
+	if len(todo) == 0 {
+		return 0, nil
+	}
+	bin, msg := nativeBinary(sc, s, all)
+	if bin == "" {
+		return 0, []string{msg}
+	}
+	for k, sm := range todo {
+		rp := filepath.Join(filepath.Dir(bin), fmt.Sprintf("trace-%s-%d.json", sanitize(s.Name), k))
+		writeJSON(rp, map[string]interface{}{"harness": s.Name, "func": s.Func, "label": sm.Label, "inputs": sm.Inputs, "script": sm.Script})
+		cmd := exec.Command(bin, "-test.run", "^TestVerifReplay$", "-test.count=1", "-test.timeout", "120s")
+		cmd.Dir = filepath.Join(repoDir, s.PkgRel)
+		cmd.Env = append(append([]string{}, sc.env...), "VERIF_REPLAY="+rp, "VERIF_HARNESS="+s.Func)
+		out, _ := cmd.CombinedOutput()
+		txt := string(out)
+		if !strings.Contains(txt, "VERIF-REPLAY-REACH "+sm.Label+"\n") {
+			// once more: native runs of threaded harnesses depend on the host scheduler
+			cmd2 := exec.Command(bin, "-test.run", "^TestVerifReplay$", "-test.count=1", "-test.timeout", "120s")
+			cmd2.Dir, cmd2.Env = cmd.Dir, cmd.Env
+			out, _ = cmd2.CombinedOutput()
+			txt = string(out)
+		}
+		reached := strings.Contains(txt, "VERIF-REPLAY-REACH "+sm.Label+"\n")
+		failed := strings.Contains(txt, "VERIF-REPLAY-FAIL")
+		if i := strings.Index(txt, "VERIF-REPLAY-REACH "+sm.Label+"\n"); i >= 0 {
+			failed = strings.Contains(txt[:i], "VERIF-REPLAY-FAIL")
+		}
+		switch {
+		case reached && !failed:
+			ok++
+		case strings.Contains(txt, "VERIF-REPLAY-ASSUME-FAILED") && !reached:
+			// the witness prefix ends before an assumption that the default values of
+			// the remaining inputs do not satisfy: not comparable
+		default:
+			bad = append(bad, fmt.Sprintf("%s: witness of %q does not reproduce natively (reached=%v failed=%v) script=%q\n%s", s.Name, sm.Label, reached, failed, sm.Script, firstLines(txt, 12)))
+		}
+	}
+	return ok, bad
 }
 
 // engineChoiceScore sums the engine-made choices ("c<n>") of a decision script:
@@ -734,6 +869,8 @@ func findFunc(prog *ssa.Program, name string) *ssa.Function {
 	return nil
 }
 
+var tracesValidated, traceMismatches int
+
 func buildEvidence(prop, tier string, seed int64, eng *symgo.Engine, reports []*symgo.HarnessReport, assumes []string, wall time.Duration, viol int, loadDur time.Duration) *evidence {
 	var paths, decisions, asserts, steps int64
 	exhaustive := true
@@ -741,7 +878,7 @@ func buildEvidence(prop, tier string, seed int64, eng *symgo.Engine, reports []*
 	funcs := map[string]int{}
 	var bounds []string
 	harnesses := []map[string]interface{}{}
-	validated := 0
+	validated := tracesValidated
 	for _, r := range reports {
 		paths += r.Paths
 		decisions += r.Decisions
@@ -780,6 +917,7 @@ func buildEvidence(prop, tier string, seed int64, eng *symgo.Engine, reports []*
 		"states":                        maxI(paths, 1),
 		"transitions":                   maxI(decisions, 1),
 		"traces_validated_against_impl": validated,
+		"trace_validation_mismatches":   traceMismatches,
 		"samples":                       samples,
 		"exhaustive":                    exhaustive,
 		"paths_explored":                paths,
